@@ -492,7 +492,7 @@ def run_for(pid, tier="quick", seed=0, replay_path=None):
             chk.note_nontrivial(common.case_hash([c.get("q", c.get("seed")), ln["kind"], ln.get("stage")]))
         if ln["tid"] in rejects:
             pub = {"program": {k: v for k, v in c.items() if k != "cid"}, "ops": rel.ops_of(c["q"]) if "q" in c and not c.get("special") else [], "stage": ln.get("stage"),
-                   "cls": ln.get("cls", ""), "kind": ln["kind"], "q": c.get("q", {"op": "none"}), "div_has_null": bool(ln.get("div_has_null", False))}
+                   "cls": ln.get("cls", ""), "kind": ln["kind"], "q": c.get("q", {"op": "none"}), "div_has_null": bool(NULL in (ln.get("div") or []))}
             det = {k: ln[k] for k in ("np", "known", "div", "parts", "decl", "pschemas", "rschema", "schemas", "stages", "pairs", "desc") if k in ln}
             if ln["kind"] == "graph":
                 det = {"nkeys": ln["nkeys"]}
